@@ -143,6 +143,7 @@ func c08Scenarios(tier string) []*Scenario {
 				s2 := root.SubScope("x")
 				c0, c1, c2, g := root.Counter("c"), s1.Counter("c"), s2.Counter("c"), s1.Gauge("g")
 				w := rt.GoNamed("rec", func() {
+					g.Update(5) // a periodic pass may be delivering this value while the next update and Close happen
 					c0.Inc(1)
 					c1.Inc(2)
 					c2.Inc(4)
